@@ -26,6 +26,7 @@ COUNTS = {
     "win": (6000, 100000),
     "cfg": (3000, 60000),
     "srv": (500, 12000),
+    "srv-rt": (1, 1),
     "pair": (800, 40000),
     "conc": (300, 6000),
     "cli": (250, 5000),
@@ -46,6 +47,7 @@ def nontrivial_rule(suite):
         "conc": "distinct (client set, interleaving) pairs with at least two clients that both start",
         "pair": "distinct (configuration, file, fault schedule) triples with at least one fault",
         "srv": "distinct request histories in which the server sent at least one reply",
+        "srv-rt": "distinct request histories (each takes seconds of real time) in which the server sent at least one reply",
         "cfg": "distinct argument-vector families (setting groups x 5 key-order-preserving orders) with at least two groups",
     }.get(suite, "distinct cases")
 
@@ -61,7 +63,7 @@ def is_nontrivial(suite, case, impl):
         return True
     if suite == "cfg":
         return case.count("|") >= 1
-    if suite == "srv":
+    if suite in ("srv", "srv-rt"):
         return "reply=0" in impl
     if suite == "pair":
         return not case.endswith(" - -")
@@ -73,21 +75,21 @@ def is_nontrivial(suite, case, impl):
 
 W_ASSUME = ["virtual clock hook (cfg rs_tftpd_verif) supplies time inside Worker::send_file; receive results are scripted",
             "regular-file reads are short only at end of file; write_all writes everything or fails (OS contract)"]
-REALTIME = {"srv", "conc", "cli", "bin"}
+REALTIME = {"srv", "srv-rt", "conc", "cli", "bin"}
 
 PROPS = {
     "C01": {"suites": ["wsend", "srv"], "monitor": True, "title": "download fidelity", "assumptions": W_ASSUME},
     "C02": {"suites": ["wrecv", "srv"], "monitor": True, "title": "upload fidelity", "assumptions": W_ASSUME},
     "C03": {"suites": ["srv", "bin"], "monitor": True, "title": "directory confinement",
             "assumptions": ["no symbolic links inside the served directories; Unix path branch", "loopback UDP delivers the sequential request histories"]},
-    "C04": {"suites": ["pair", "wrecv", "wsend"], "monitor": True, "title": "loss tolerance",
+    "C04": {"suites": ["pair", "wrecv", "wsend", "bin"], "monitor": True, "title": "loss tolerance",
             "assumptions": W_ASSUME + ["time-outs are delivered at quiescence only (sender first): one fair schedule of the two timers"]},
     "C05": {"suites": ["srv"], "monitor": True, "title": "listener availability",
             "assumptions": ["OS resource exhaustion (threads, descriptors, memory growth) is outside the model", "loopback UDP"]},
     "C06": {"suites": ["srv"], "monitor": True, "title": "access policy", "assumptions": ["Path::exists as modelled by the POSIX tree walk; loopback UDP"]},
-    "C07": {"suites": ["wsend", "wrecv"], "monitor": True, "title": "termination", "assumptions": W_ASSUME},
-    "C08": {"suites": ["wsend", "wrecv", "wsend-long"], "monitor": True, "title": "window flow control", "assumptions": W_ASSUME},
-    "C09": {"suites": ["srv", "bin", "conc"], "monitor": True, "title": "option negotiation", "assumptions": ["loopback UDP; retransmission interval not measured in the quick tier"]},
+    "C07": {"suites": ["wsend", "wrecv", "bin"], "monitor": True, "title": "termination", "assumptions": W_ASSUME},
+    "C08": {"suites": ["wsend", "wrecv", "wsend-long", "srv-rt", "bin"], "monitor": True, "title": "window flow control", "assumptions": W_ASSUME},
+    "C09": {"suites": ["srv", "bin", "conc"], "monitor": True, "title": "option negotiation", "assumptions": ["loopback UDP; retransmission intervals measured to the second on the real binary (suite bin)"]},
     "C10": {"suites": ["codec-dec"], "monitor": True,
             "title": "decoder totality"},
     "C11": {"suites": ["codec-enc", "codec-dec"], "monitor": True,
@@ -98,7 +100,7 @@ PROPS = {
             "assumptions": W_ASSUME + ["POSIX unlink/truncate semantics as modelled; write errors (disk full) are modelled, not induced"]},
     "C14": {"suites": ["cli", "pair", "bin"], "monitor": True, "title": "bundled client and server interoperate",
             "assumptions": ["loopback delivers the windows used (window x block size <= 128 KiB); IPv4 loopback, in-process Client::run and Server"]},
-    "C15": {"suites": ["wsend-long", "wrecv-long"], "monitor": True, "title": "block-number wrap-around", "assumptions": W_ASSUME},
+    "C15": {"suites": ["wsend-long", "wrecv-long", "srv-rt"], "monitor": True, "title": "block-number wrap-around", "assumptions": W_ASSUME},
     "C16": {"suites": ["wsend", "wrecv", "cfg", "srv", "bin"], "monitor": True, "title": "duplicate-packets mode", "assumptions": W_ASSUME},
     "C17": {"suites": ["cfg", "bin"], "monitor": True, "title": "command-line configuration",
             "assumptions": ["Path::exists and IpAddr::from_str are oracles: evaluated by the harness on every token and handed to the model",
